@@ -7,6 +7,7 @@ package h
 import (
 	"fmt"
 
+	"github.com/jhump/grpctunnel"
 	"github.com/jhump/grpctunnel/tunnelpb"
 )
 
@@ -146,6 +147,12 @@ func (m *WireMonitor) clientFrame(wl *wireLink, e *TapEvent, f *tunnelpb.ClientT
 			}
 			if m.ExpectRev >= 0 && int(ns.NewStream.ProtocolRevision) != m.ExpectRev {
 				m.v("C11", "wrong-revision-used", "link %d: new_stream %d uses protocol revision %d, configuration requires %d", wl.link.ID, id, ns.NewStream.ProtocolRevision, m.ExpectRev)
+			}
+			// the window a library client announces for the responses of a stream is the window its
+			// receiver enforces (the compiled-in one), whatever the peer's own settings say: announcing
+			// less lets a peer overrun what was announced, announcing more gets compliant peers refused
+			if win, _ := grpctunnel.VerifConstants(); ns.NewStream.ProtocolRevision == tunnelpb.ProtocolRevision_REVISION_ONE && ns.NewStream.InitialWindowSize != win {
+				m.v("C06", "announced-window-differs-from-enforced", "link %d: new_stream %d announces a window of %d bytes for its responses, the endpoint's receiver enforces %d", wl.link.ID, id, ns.NewStream.InitialWindowSize, win)
 			}
 			if m.ClientAwaitsSettings && m.ExpectSettings == 1 && !wl.settingsSeen {
 				m.v("C13", "stream-before-settings", "link %d: client created stream %d before the settings frame was emitted", wl.link.ID, id)
